@@ -58,13 +58,15 @@ def run(chk):
                 'as a dictionary {params, ops, params_no_bias, ops_no_bias, gap8_latency(2D)}, full_cost on/off; '
                 'non-trivial = at least one feature or tap pruned; distinct = distinct (program, masks, full_cost)')
     chk.trusted.append('cost functions of plinio.cost evaluated by the real code (their formulas are C16\'s business)')
-    chk.assumptions.append('layers invoked once per forward (layer reuse is not generated yet)')
+    chk.assumptions.append('layer reuse (one layer invoked twice at different resolutions) is covered by the oracle only, '
+                           'not by the bookkeeping model')
     chk.prove()
     n = 36 if chk.quick else 600
     if chk.proof_broken:
         n *= 4
     specs = pitcheck.specs_for(chk, n, {'excl': True, 'p_excl': .25, 'unsupported': False, 'full_cost': 'mix',
-                                        'extra_costs': METRICS, 'styles': ['open', 'mixed', 'mixed', 'min']})
+                                        'extra_costs': METRICS, 'styles': ['open', 'mixed', 'mixed', 'min'],
+                                        'reuse': True, 'flags': 'random'})
     for r, assigns in pitcheck.run_nets(chk, specs):
         if r.get('harness_error'):
             raise RuntimeError('harness error on %s: %s %s' % (r['spec'], r['harness_error'], r.get('tb')))
@@ -83,9 +85,14 @@ def run(chk):
                               % (c['continuous'], c['discrete'], c['seed_model'], name), cid)
             chk.count(('init', r['spec']['seed'], name), bucket='init:' + name)
         for a, head, rows in assigns:
-            if 'err' in head or not a.get('assign_done'):
+            if not a.get('assign_done'):
                 if a.get('export_error'):
                     chk.violation('C04:export-raises', a['export_error'], dict(pitcheck.case_id(r, a), kind='net'))
+                continue
+            if 'err' in head:       # layer reuse: no bookkeeping model, oracle only
+                chk.count((tuple(r['prog']), a['style'], r['spec']['seed']), bucket='layer-reuse',
+                          sample={'prog': r['prog'], 'style': a['style'], 'costs': a['costs']})
+                _oracle(chk, r, a)
                 continue
             chk.count((tuple(r['prog']), a['request']), nontrivial=any('0' in x['out'] for x in a['rows']),
                       bucket='full_cost=%d' % int(r['spec']['full_cost']),
@@ -107,7 +114,7 @@ def replay(data):
     spec = {'seed': case['seed'], 'dim': case['dim'], 'opts': case['opts'], 'fold_bn': case['fold_bn'],
             'excl_mode': case['excl_mode'], 'styles': case.get('styles') or ['open', 'mixed', 'mixed', 'min'],
             'full_cost': case.get('full_cost'), 'train_mode': case.get('train_mode'),
-            'extra_costs': case.get('extra_costs') or []}
+            'extra_costs': case.get('extra_costs') or [], 'flags': case.get('flags')}
     r = pitcase.run_case(spec)
     bad = 0
     print('prog', r.get('prog'), 'init', r.get('init_cost'))
